@@ -218,10 +218,13 @@ SCHEME_PORTS = {b"http": [80, 8080], b"https": [443, 80]}   # default and non-de
 def _mk_edit(kind, scheme):
     @scenario(f"edit.{kind}[{scheme.decode()}]", functions=[R + ".host", R + ".port", R + "._update_host_and_authority", R + ".authority", R + ".scheme", U + ":hostport"], idna_facts=True)
     def s_edit(vc):
-        hcfg, acfg = vc.case("config", EDIT_CONFIGS)
+        # every configuration with the scheme's default port, four of them also with a non-default port
+        d_port, o_port = SCHEME_PORTS[scheme]
+        combos = [(c, d_port) for c in EDIT_CONFIGS] + [(c, o_port) for c in EDIT_CONFIGS if c in (("", ""), ("Host", ""), ("host,HOST", ""), ("other,Host,other", "symbolic"))]
+        (hcfg, acfg), the_port = vc.case("config_and_port", combos)
         names, vals = header_cases(vc, [hcfg])
         old_host = vc.sym_str("old_host")
-        old_port = vc.case("old_port", SCHEME_PORTS[scheme]) if kind == "host" else vc.sym_int("old_port")
+        old_port = the_port if kind == "host" else vc.sym_int("old_port")
         old_auth = b""
         if acfg == "symbolic":
             old_auth = vc.sym_bytes("old_authority")
@@ -232,7 +235,7 @@ def _mk_edit(kind, scheme):
             out = _set_attr(vc, req, "host", new_host)
             host, port = new_host, old_port
         else:
-            new_port = vc.case("new_port", SCHEME_PORTS[scheme])
+            new_port = the_port
             out = _set_attr(vc, req, "port", new_port)
             host, port = old_host, new_port
         vc.ensure("no_exception", out.ok)
@@ -300,7 +303,7 @@ def _mk_url_setter(new_scheme):
     old_scheme = b"https"
     names, vals = header_cases(vc, ["", "Host", "other,host,other"])
     old_auth = vc.case("authority", [b"", b"old.example:81"])
-    req, data, hdrs = mk_request(vc, old_scheme, vc.sym_str("old_host"), vc.case("old_port", [80, 8080]), old_auth, tuple(zip(names, vals)))
+    req, data, hdrs = mk_request(vc, old_scheme, vc.sym_str("old_host"), 8080, old_auth, tuple(zip(names, vals)))
     host_b, port, path = vc.sym_bytes("parsed_host"), vc.case("parsed_port", SCHEME_PORTS[new_scheme]), vc.sym_bytes("parsed_path")
     vc.assume(And(len_(host_b) > 0, is_ascii(vc, host_b), Not(contains(host_b, b"xn--"))))   # parse: "No hostname given" otherwise
     text = vc.sym_str("url")
@@ -420,6 +423,8 @@ HOSTS = [
     ("plain", "127.0.0.1"), ("plain", "192.168.0.1"),
     ("ipv6", "[::1]"), ("ipv6", "[2001:db8::1]"), ("ipv6", "[FE80::1]"),
     ("idn", "xn--bcher-kva.de"), ("idn", "bücher.de"), ("idn", "xn--fsq.example"),
+    # IPv6 literals with an embedded dotted-quad IPv4 tail (RFC 4291 §2.2 form 3 / §2.5.5; RFC 3986 IPv6address "ls32")
+    ("ipv6", "[::ffff:192.0.2.1]"), ("ipv6", "[64:ff9b::192.0.2.33]"), ("ipv6", "[::10.0.0.1]"),
 ]
 PATHS = ["", "/", "/a/b", "/a%20b", "/a;p=1", "/?q=1&r=2", "/a?b=c#frag", "/a//b/", "/%7Euser/", "/a?x=/y:z@!$&'()*+,;=", "?q", "/a?b=c%26d&e=%3D", "/a b"]
 
@@ -514,10 +519,11 @@ def _url_roundtrips(b, tier):
 def _edit_histories(b, tier):
     import itertools
     edits = [("host", "example.org"), ("host", "127.0.0.1"), ("host", "::1"), ("host", "2001:db8::1"), ("host", "bücher.de"), ("host", b"xn--bcher-kva.de"),
+             ("host", "::ffff:192.0.2.1"), ("url", "https://[64:ff9b::192.0.2.33]:8443/x"),
              ("port", 80), ("port", 443), ("port", 8080),
              ("url", "http://new.example/x?y=1"), ("url", "https://new.example:8443/"), ("url", "https://new.example/"), ("url", "http://[::1]:8080/p"), ("url", "http://xn--bcher-kva.de/")]
     if tier == "quick":
-        edits = [e for i, e in enumerate(edits) if i not in (1, 7, 11)]
+        edits = [e for i, e in enumerate(edits) if i not in (1, 9, 13)]
     maxlen = 2 if tier == "quick" else 3
     configs = list(itertools.product([b"HTTP/1.1", b"HTTP/2.0"], [None, b"old.example"], [b"", b"old.example"], [b"http", b"https"]))
     for http_version, host_header, authority, scheme in configs:
@@ -566,6 +572,43 @@ def _helper_lemmas(b, tier):
                         b.fail(_ck("lemma.parse_authority_inverts_hostport", inp), inp, f"hostport -> {a!r} -> {got!r}")
 
 
+# hosts with the verdict an RFC 3986 §3.2.2 / RFC 1123 reader gives (reg-name of LDH-or-underscore labels <= 63 bytes, <= 255 in all, optional
+# trailing dot; IPv4address; IPv6address incl. the forms with a dotted-quad "ls32" tail); bracketed text is not a host
+VALID_HOST_TABLE = [
+    (b"example.com", True), ("example.com", True), (b"a_b.example", True), (b"example.com.", True), (b"localhost", True), (b"xn--bcher-kva.de", True),
+    ("b\u00fccher.de", True), (b"127.0.0.1", True), (b"1.2.3.4.5", True), (b"::1", True), (b"2001:db8::1", True), (b"fe80::1", True),
+    (b"::ffff:192.0.2.1", True), ("::ffff:192.0.2.1", True), (b"64:ff9b::192.0.2.33", True), (b"::10.0.0.1", True), (b"2001:db8::192.168.0.1", True),
+    (b"", False), (b".", False), (b"a..b", False), (b"exa mple.com", False), (b"[::1]", False), (b"::ffff:192.0.2.256", False), (b"1::2::3", False),
+    (b"::ffff:192.0.2", False), (b"a" * 64 + b".com", False), (b"a/b", False), (b"a:b", False),
+]
+
+
+def _valid_host_table(b, tier):
+    from mitmproxy.net import check
+    from mitmproxy.net.http import url
+    for host, valid in VALID_HOST_TABLE:
+        text = host if isinstance(host, str) else host.decode("ascii")
+        inp = {"host": repr(host), "host_class": "ipv6" if ":" in text else "plain"}
+        b.case(("valid_host", repr(host)), nontrivial=True)
+        try:
+            got = check.is_valid_host(host)
+        except Exception as e:
+            got = f"{type(e).__name__}: {e}"
+        if got is not valid:
+            b.fail("is_valid_host.table", inp, f"is_valid_host({host!r}) = {got!r}, expected {valid!r}")
+        if valid and text.isascii():
+            # a valid host is accepted inside a URL and inside an authority
+            auth = f"[{text}]" if ":" in text else text
+            try:
+                parsed = url.parse(f"http://{auth}:8080/p")
+                pa = url.parse_authority(f"{auth}:8080", check=True)
+            except Exception as e:
+                b.fail("is_valid_host.accepted_in_url_and_authority", inp, f"{type(e).__name__}: {e}")
+                continue
+            if parsed[1].decode().lower() != text.lower() or parsed[2] != 8080 or (pa[0].lower(), pa[1]) != (text.lower(), 8080):
+                b.fail("is_valid_host.accepted_in_url_and_authority", inp, f"url.parse -> {parsed!r}, parse_authority -> {pa!r}")
+
+
 def bounded(tier, seed):
     b = Bounded()
     b.rule = ("(1) URLs scheme x host class {name, upper-case, underscore, trailing dot, IPv4, IPv6 literal, IDN A-label/U-label} x port {elided, explicit default, "
@@ -578,6 +621,7 @@ def bounded(tier, seed):
     _url_roundtrips(b, tier)
     _edit_histories(b, tier)
     _helper_lemmas(b, tier)
+    _valid_host_table(b, tier)
     return b
 
 
